@@ -56,3 +56,10 @@ MUTANTS += [
      [("src/pptx/oxml/chart/shared.py", "        self.get_or_add_xMode().val = ST_LayoutMode.FACTOR\n", "        if self.xMode is None:\n            self._add_xMode()\n")],
      "R9.7 Legend.horz_offset"),
 ]
+
+MUTANTS += [
+    ("underline-shorthand-by-table", "True / False are mapped to underline members through a table with pass-through default",
+     [("src/pptx/text/text.py", "        if value is True:\n            value = MSO_UNDERLINE.SINGLE_LINE\n        elif value is False:\n            value = MSO_UNDERLINE.NONE\n        self._element.u = value",
+       "        self._element.u = {True: MSO_UNDERLINE.SINGLE_LINE, False: MSO_UNDERLINE.NONE}.get(value, value)")],
+     "R9.8 Font.underline:bool-shorthand"),
+]
